@@ -62,3 +62,8 @@ pub fn set_deps_unknown(b: bool) {
 pub fn deps_unknown() -> bool {
     DEPS_UNKNOWN.with(|f| f.get())
 }
+
+/// H7: replay a script of evaluation-stack operations; see `eval::stack::verif_stack_replay`.
+pub fn stack_replay(script: &[u8]) -> Vec<(u8, Vec<u8>)> {
+    crate::eval::stack::verif_stack_replay(script)
+}
